@@ -85,6 +85,8 @@ def base_req(c):
     d.update(cb_ok(c.pre))
     d.update(issued_ok(c.pre))
     d['host-id-set'] = z3.And(own(c) != NONE, smt.truthy(own(c)))
+    from . import c13
+    d.update(c13.handlers_ok(c.pre, 'server'))
     return d
 
 
@@ -301,3 +303,62 @@ def register(reg):
         t = '%s.%s.' % (m_, c_)
         reg.add(emit_contract(w, t + 'emit', base))
         reg.add(listener_contract(w, t + '_thread'))
+
+
+# ============================================================================ disconnect family and _handle_emit
+def handle_disconnect_contract(world, target, server_suffix):
+    m = lambda c: c.a.message
+    g = lambda c, k: z3.If(smt.vhas(m(c), A(k)), smt.vget(m(c), A(k)), NONE)
+    return Contract(
+        target=target, schema=world, self_obj='manager', params={'message': 'V'},
+        requires=lambda c: dict(base_req(c), **{'message-is-a-dict': smt.kind(c.a.message) == smt.K_DICT}),
+        cases=[Case('asks-the-server', post=lambda c: delegated(c, server_suffix, dict(sid=g(c, 'sid'), namespace=g(c, 'namespace')), 'return')),
+               Case('handler-raises', kind='raise', exc='Exception', post=lambda c: {})],
+        modifies=[('manager', 'rooms'), ('manager', 'callbacks'), ('manager', 'pending_disconnect'), ('g', 'disp'), ('g', 'calls'), ('g', 'out'), ('g', 'raw')],
+        props=['C07', 'C15'], thin=True)
+
+
+def handle_emit_contract(world, target, base_suffix):
+    m = lambda c: c.a.message
+    g = lambda c, k: z3.If(smt.vhas(m(c), A(k)), smt.vget(m(c), A(k)), NONE)
+    wf = lambda c: z3.And(smt.vhas(m(c), A('event')), smt.vhas(m(c), A('data')))
+    return Contract(
+        target=target, schema=world, self_obj='manager', params={'message': 'V'},
+        requires=lambda c: dict(base_req(c), **{'message-is-a-dict': smt.kind(c.a.message) == smt.K_DICT}),
+        cases=[Case('applies-the-emit-to-the-local-clients', when=wf,
+                    post=lambda c: delegated(c, base_suffix, dict(event=smt.vget(m(c), A('event')), data=smt.vget(m(c), A('data')), namespace=g(c, 'namespace'),
+                                                                  room=g(c, 'room'), skip_sid=g(c, 'skip_sid')), 'return')),
+               Case('incomplete-message', when=lambda c: z3.Not(wf(c)), kind='raise', exc='Exception', update=lambda c: None),
+               Case('rejected', when=wf, kind='raise', exc='Exception', post=lambda c: {})],
+        modifies=[('g', 'out'), ('g', 'raw'), ('manager', 'callbacks'), ('manager', 'ack_next')], props=['C07', 'C15'], thin=True)
+
+
+def disconnect_contract(world, target, server_suffix, base_suffix):
+    direct = lambda c: smt.truthy(IQ)
+
+    def queued_post(c):
+        d = delegated(c, server_suffix, dict(sid=c.a.sid, namespace=eff(c.a.namespace)), 'return', changed_after=[PUB])
+        d['then-published'] = published_one(c, method=A('disconnect'), sid=c.a.sid, namespace=eff(c.a.namespace), host_id=own(c))
+        return d
+    return Contract(
+        target=target, schema=world, self_obj='manager', params={'sid': 'V', 'namespace': 'V', 'kwargs': kw_ignore_queue},
+        requires=base_req,
+        cases=[Case('ignore-queue', when=direct, post=lambda c: dict(delegated(c, base_suffix, dict(sid=c.a.sid, namespace=c.a.namespace), 'return'),
+                                                                     **{'nothing-published': nothing_published(c)})),
+               Case('queued', when=lambda c: z3.Not(direct(c)), post=queued_post),
+               Case('queued.handler-raises', when=lambda c: z3.Not(direct(c)), kind='raise', exc='Exception', post=lambda c: {})],
+        modifies=[('manager', 'rooms'), ('manager', 'callbacks'), ('manager', 'pending_disconnect'), ('g', 'disp'), ('g', 'calls'), ('g', 'out'), ('g', 'raw'), PUB],
+        props=['C07'])
+
+
+_reg_b = register
+
+
+def register(reg):
+    _reg_b(reg)
+    for w, m_, c_, base, srv in ((PS, 'pubsub_manager', 'PubSubManager', 'Manager.emit', 'Server.disconnect'),
+                                 (APS, 'async_pubsub_manager', 'AsyncPubSubManager', 'AsyncManager.emit', 'AsyncServer.disconnect')):
+        t = '%s.%s.' % (m_, c_)
+        reg.add(handle_disconnect_contract(w, t + '_handle_disconnect', srv))
+        reg.add(handle_emit_contract(w, t + '_handle_emit', base))
+        reg.add(disconnect_contract(w, t + 'disconnect', srv, 'basic_disconnect'))
